@@ -582,8 +582,8 @@ func main() {
 		Families: func(tier string) []vlib.Family {
 			if tier == "thorough" {
 				return []vlib.Family{
-					family("len1,pb2", scenarios(1, []int{0, 1, 2}, true, false), vsched.Config{MaxPreempt: 2, MaxFree: 2, MaxSteps: 20000}),
-					family("len2,pb1", scenarios(2, []int{1, 2}, false, false), vsched.Config{MaxPreempt: 1, MaxFree: 1, MaxSteps: 20000, MaxExecs: 3000}),
+					family("len1,dev2", scenarios(1, []int{0, 1, 2}, true, false), vsched.Config{MaxPreempt: 2, MaxFree: 2, MaxTotal: 2, MaxSteps: 20000, MaxExecs: 150000}),
+					family("len2,dev1", scenarios(2, []int{1, 2}, false, false), vsched.Config{MaxPreempt: 1, MaxFree: 1, MaxTotal: 1, MaxSteps: 20000}),
 					family("corrupt,pb0", scenarios(0, nil, false, true), vsched.Config{MaxPreempt: 0, MaxFree: 1, MaxSteps: 20000}),
 				}
 			}
